@@ -104,12 +104,16 @@ def seeded_order(n, seed):
 
 
 def load_known(pid):
-    path = os.path.join(HERE, 'known_findings.json')
-    if not os.path.exists(path):
-        return []
-    with open(path) as f:
-        data = json.load(f)
-    return [e for e in data.get('findings', []) if e.get('property') == pid]
+    '''entries for one property from known_findings.json plus known_findings.d/<PID>.json (same format, one file per
+    property so that they can be maintained independently); both are committed and never written at run time'''
+    out = []
+    for path in (os.path.join(HERE, 'known_findings.json'), os.path.join(HERE, 'known_findings.d', pid + '.json')):
+        if not os.path.exists(path):
+            continue
+        with open(path) as f:
+            data = json.load(f)
+        out.extend(e for e in data.get('findings', []) if e.get('property') == pid)
+    return out
 
 
 def run_with_alarm(f, seconds):
